@@ -95,14 +95,20 @@ uint32_t igris_crc32(const void *data, uint32_t length, uint32_t crc_init)
 
     uint32_t crc = crc_init;
 
-    const uint32_t *pData = (const uint32_t *)data;
+    // words are assembled from bytes (little-endian lanes): no alignment
+    // requirement and no read past data + length
+    const uint8_t *pData = (const uint8_t *)data;
     uint32_t bodySize = length / 4;
     uint32_t tailSize = length % 4;
 
     for (uint32_t i = 0; i < bodySize; i++)
     {
+        uint32_t word = (uint32_t)pData[4 * i] |
+                        ((uint32_t)pData[4 * i + 1] << 8) |
+                        ((uint32_t)pData[4 * i + 2] << 16) |
+                        ((uint32_t)pData[4 * i + 3] << 24);
 
-        crc = crc ^ pData[i];
+        crc = crc ^ word;
         crc = (crc << 4) ^ crcTable[crc >> 28];
         crc = (crc << 4) ^ crcTable[crc >> 28];
         crc = (crc << 4) ^ crcTable[crc >> 28];
@@ -115,7 +121,11 @@ uint32_t igris_crc32(const void *data, uint32_t length, uint32_t crc_init)
 
     if (tailSize)
     {
-        crc = crc ^ (pData[bodySize] & ((1 << tailSize * 8) - 1));
+        uint32_t word = 0;
+        for (uint32_t k = 0; k < tailSize; k++)
+            word |= (uint32_t)pData[4 * bodySize + k] << (8 * k);
+
+        crc = crc ^ word;
         crc = (crc << 4) ^ crcTable[crc >> 28];
         crc = (crc << 4) ^ crcTable[crc >> 28];
         crc = (crc << 4) ^ crcTable[crc >> 28];
